@@ -510,7 +510,7 @@ func genCallProgram(t *rapid.T, names []string) string {
 func TestC20(t *testing.T) {
 	p := begin(t, "C20")
 	r := p.r
-	r.SetRule("case = program text from one of the families {core: programs of the type-directed generator used for C02; hash: hset/hdel histories over symbol, string and int keys followed by str / json / msgpack / keys / range / hpair / togo / println of the hash and decoding of JSON objects with arbitrary member order, with and without a zKeyOrder that lists only some members; record: a struct declaration with instances, json/msgpack round trips, rejected writes; gostruct: records of the registered Go struct types (nested, embedded, interface fields) with json, togo, _method, _fields, _methods; package: package trees with outside accesses (C18 generator); undeclared-struct: use of a struct name (also names of builtins: first, field) that only another interpreter declares between the runs, declarations of own structs, generated names; symbols: symbol numbers and symbol order of the names an interpreter is born with; call: 1-3 calls of any global or builtin function with 0-3 arguments from a pool of 16 values of all kinds (mostly ill-typed: the ERROR TEXT is the output)}. repeat: the text is run in 6 (thorough 12) fresh interpreters of this process and once more after 6 other interpreters were created and did unrelated work (struct declarations, gensym, decoding, macros, packages): value or error text and all (trace ..) outputs must be identical. processes: the same texts are run in 3 (thorough 5) fresh child processes: same result as in this process, and the captured standard output identical between processes. corpus: every tests/*.zy script is run 3 (thorough 6) times by the real command line tool: identical output and exit status. Non-trivial: the output passes through a hash, record, registry or scope walk (families hash, record, gostruct, package) or is an error text. Distinct by program text.")
+	r.SetRule("case = program text from one of the families {core: programs of the type-directed generator used for C02; hash: hset/hdel histories over symbol, string and int keys followed by str / json / msgpack / keys / range / hpair / togo / println of the hash and decoding of JSON objects with arbitrary member order, with and without a zKeyOrder that lists only some members; record: a struct declaration with instances, json/msgpack round trips, rejected writes; gostruct: records of the registered Go struct types (nested, embedded, interface fields) with json, togo, _method, _fields, _methods; package: package trees with outside accesses (C18 generator); undeclared-struct: use of a struct name (also names of builtins: first, field) that only another interpreter declares between the runs, declarations of own structs, generated names, defmap of such a name; typed-call: a typed func called with named arguments containing 0-5 correct, wrongly typed, duplicate and unknown names; symbols: symbol numbers and symbol order of the names an interpreter is born with; call: 1-3 calls of any global or builtin function with 0-3 arguments from a pool of 16 values of all kinds (mostly ill-typed: the ERROR TEXT is the output)}. repeat: the text is run in 6 (thorough 12) fresh interpreters of this process and once more after 6 other interpreters were created and did unrelated work (struct declarations, gensym, decoding, macros, packages): value or error text and all (trace ..) outputs must be identical. processes: the same texts are run in 3 (thorough 5) fresh child processes: same result as in this process, and the captured standard output identical between processes. corpus: every tests/*.zy script is run 3 (thorough 6) times by the real command line tool: identical output and exit status. Non-trivial: the output passes through a hash, record, registry or scope walk (families hash, record, gostruct, package) or is an error text. Distinct by program text.")
 	r.Assume("explicitly random, time and pointer-printing functions are excluded by name (random, now, timeit, &, *, deref, _ls, _closdump, typelist, printf with %p / %#v, the display string returned by togo, which is Go's %#v rendering of the struct; corpus scripts timeit.zy and infixMixHashArray.zy which print %#v)", "the Go stack dump that follows the message of a recovered panic in an error text (goroutine ids, addresses) is cut at its marker", "the other interpreters' struct and record names are new in the process for every case (numbered)")
 	scratch := os.Getenv("VERIF_SCRATCH")
 	if scratch == "" {
@@ -527,7 +527,7 @@ func TestC20(t *testing.T) {
 	var forProcsObs []string
 	nProcCases := ev.Scale(240, 24000)
 	p.rapidSub("repeat", ev.Scale(900, 120000), func(t *rapid.T) {
-		fam := rapid.SampledFrom([]string{"core", "hash", "hash", "record", "gostruct", "gostruct", "package", "call", "call", "call", "undeclared-struct", "symbols"}).Draw(t, "family")
+		fam := rapid.SampledFrom([]string{"core", "hash", "hash", "record", "gostruct", "gostruct", "package", "call", "call", "call", "undeclared-struct", "symbols", "typed-call"}).Draw(t, "family")
 		c := c20Case{Family: fam}
 		switch fam {
 		case "core":
@@ -574,7 +574,28 @@ func TestC20(t *testing.T) {
 				"(struct Own [(field tag: bool) (field Op: int64)]) (trace (str (Own Op: 3))) (trace (str (" + nm + " [5])))",
 				"((fn [a] a) 1 2)",
 				"(trace (gensym)) (trace (str (fn [x] x))) (def x (" + nm + " Id: 1))",
+				"(defmap " + nm + ") (trace (str (" + nm + " Id: \"text\")))",
+				"(defmap " + nm + ") (def r (" + nm + " Other: 5)) (trace (str r)) (trace (raw2str (json r)))",
 			}).Draw(t, "leaktext")
+			if strings.Contains(c.Text, "(defmap ") {
+				// its own signature: see known_findings.txt (the registry is consulted by name, process-wide)
+				c.Family = "undeclared-struct/defmap"
+			}
+		case "typed-call":
+			// calls of a typed function with named arguments: which of several mistakes is reported
+			// must not depend on a map walk
+			var b strings.Builder
+			b.WriteString("(func tfn [a:int64 b:string c:bool] [n:int64] (return (+ a 1)))\n")
+			args := []string{"a:1", "b:\"s\"", "c:true", "a:\"wrong\"", "b:2", "zz:1", "yy:2", "xx:3", "c:nil"}
+			var call []string
+			for i := 0; i < rapid.IntRange(0, 5).Draw(t, "nnamed"); i++ {
+				call = append(call, rapid.SampledFrom(args).Draw(t, "named"))
+			}
+			if rapid.IntRange(0, 3).Draw(t, "positional") == 0 {
+				call = []string{"1", "\"s\"", rapid.SampledFrom([]string{"true", "5", ""}).Draw(t, "third")}
+			}
+			b.WriteString("(trace (tfn " + strings.Join(call, " ") + "))\n")
+			c.Text = b.String()
 		}
 		nt := fam != "core"
 		labels := []string{"family:" + fam}
